@@ -694,7 +694,7 @@ def check_hooks_wrapped(ctx, rule, d):
         if g != want_getter:
             continue
         st = '%s: %s' % (d.label, stmt_text(s))
-        if pos in ('pre', 'post'):
+        if pos in ('pre', 'post', 'try-else', 'finally', 'handler'):
             ctx.violation(rule, w, st, 'descriptor sync hooks run outside the try: a failing hook (user function, len() of a non-sized value) escapes as a bare exception instead of PacketError', s.lineno,
                           key='%s: descriptor sync hooks run outside the try' % d.label)
         else:
